@@ -12,6 +12,7 @@ import (
 	"go/constant"
 	"go/token"
 	"go/types"
+	"os"
 	"reflect"
 	"sort"
 	"strconv"
@@ -3326,6 +3327,7 @@ func tbLoopRejects(w *World, g *ssa.Function) map[string]bool {
 		}
 		okErr := true
 		seen := map[*ssa.BasicBlock]bool{}
+		var rowErrNonNil func(v ssa.Value) bool
 		var walk func(x *ssa.BasicBlock)
 		walk = func(x *ssa.BasicBlock) {
 			if seen[x] || !okErr {
@@ -3338,7 +3340,7 @@ func tbLoopRejects(w *World, g *ssa.Function) map[string]bool {
 			}
 			if r, isRet := x.Instrs[len(x.Instrs)-1].(*ssa.Return); isRet {
 				for _, lf := range w.Leaves(r.Results[errorResultIndex(g)], r) {
-					if !w.NonNil(lf.Val, lf.Facts) {
+					if !w.NonNil(lf.Val, lf.Facts) && !rowErrNonNil(lf.Val) {
 						okErr = false
 					}
 				}
@@ -3348,6 +3350,50 @@ func tbLoopRejects(w *World, g *ssa.Function) map[string]bool {
 				walk(sx)
 			}
 		}
+		// the error to report kept in the row next to the value (a second field of the table): non-nil when every row's
+		// entry is a package-level error variable that the initialiser sets from errors.New / fmt.Errorf and nothing else writes
+		rowErrNonNil = func(v ssa.Value) bool {
+			ld, isLd := strip(v).(*ssa.UnOp)
+			if !isLd || ld.Op != token.MUL {
+				return false
+			}
+			fa2, isFA := ld.X.(*ssa.FieldAddr)
+			if !isFA || fa2.X != fa.X || fa2.Field == fa.Field || arr == nil {
+				return false
+			}
+			n := int64(0)
+			for _, r := range *arr.Referrers() {
+				ia, isIA := r.(*ssa.IndexAddr)
+				if !isIA {
+					continue
+				}
+				if _, isK := intConst(ia.Index); !isK {
+					continue
+				}
+				for _, r2 := range *ia.Referrers() {
+					fa3, isFA3 := r2.(*ssa.FieldAddr)
+					if !isFA3 || fa3.Field != fa2.Field {
+						continue
+					}
+					for _, r3 := range *fa3.Referrers() {
+						st, isSt := r3.(*ssa.Store)
+						if !isSt || st.Addr != ssa.Value(fa3) {
+							continue
+						}
+						gl, isGl := strip(st.Val).(*ssa.UnOp)
+						if !isGl || gl.Op != token.MUL {
+							return false
+						}
+						gv, isG := gl.X.(*ssa.Global)
+						if !isG || !w.globalFrozen(gv) || !w.globalInitNonNilError(gv) {
+							return false
+						}
+						n++
+					}
+				}
+			}
+			return n == at.Len()
+		}
 		walk(emptySucc)
 		if !okErr {
 			continue
@@ -3355,6 +3401,16 @@ func tbLoopRejects(w *World, g *ssa.Function) map[string]bool {
 		// success only with the loop exhausted
 		okDone := true
 		for _, r := range w.MayBeNilReturns(g) {
+			// (a return of a row's own error, shown non-nil above, is no success)
+			rowErr := true
+			for _, lf := range w.Leaves(r.Results[errorResultIndex(g)], r) {
+				if !w.NonNil(lf.Val, lf.Facts) && !rowErrNonNil(lf.Val) {
+					rowErr = false
+				}
+			}
+			if rowErr {
+				continue
+			}
 			if v, known := gf.KnownBool(r.Block(), hc); !known || v {
 				okDone = false
 			}
@@ -3411,4 +3467,34 @@ func tbLoopRejects(w *World, g *ssa.Function) map[string]bool {
 		}
 	}
 	return out
+}
+
+// globalInitNonNilError: the package initialiser stores into g the result of errors.New or fmt.Errorf (and g is frozen,
+// which the caller checks): the variable holds a non-nil error.
+func (w *World) globalInitNonNilError(g *ssa.Global) bool {
+	found := false
+	var inits []*ssa.Function
+	if g.Pkg != nil {
+		for name, mem := range g.Pkg.Members {
+			if fn, ok := mem.(*ssa.Function); ok && (name == "init" || strings.HasPrefix(name, "init#")) {
+				inits = append(inits, fn)
+			}
+		}
+	}
+	for _, fn := range inits {
+		for _, b := range fn.Blocks {
+			for _, ins := range b.Instrs {
+				st, ok := ins.(*ssa.Store)
+				if !ok || st.Addr != ssa.Value(g) {
+					continue
+				}
+				cv, isCall := strip(st.Val).(*ssa.Call)
+				if !isCall || (calleeName(cv) != "errors.New" && calleeName(cv) != "fmt.Errorf") {
+					return false
+				}
+				found = true
+			}
+		}
+	}
+	return found
 }
